@@ -96,6 +96,7 @@ class PythonTranslator(ASTTranslator):
         throw(NotImplementedError, node)
     def postGeneratorExp(translator, node):
         return '(' + node.elt.src + ' ' + ' '.join(gen.src for gen in node.generators) + ')'
+    @priority(15)
     def postcomprehension(translator, node):
         src = 'for %s in %s' % (node.target.src, node.iter.src)
         if node.ifs:
@@ -106,8 +107,10 @@ class PythonTranslator(ASTTranslator):
         return 'if %s' % node.test.src
     def postExpr(translator, node):
         return node.value.src
+    @priority(15)
     def postIfExp(translator, node):
         return '%s if %s else %s' % (node.body.src, node.test.src, node.orelse.src)
+    @priority(16)
     def postLambda(translator, node):
         return 'lambda %s: %s' % (node.args.src, node.body.src)
     def postarguments(translator, node):
